@@ -1027,12 +1027,65 @@ def _specialise_round(trees):
             else:
                 break
         return args
+    # defaults by (function name, parameter name): a keyword argument that is the very constant the parameter defaults to passes nothing either
+    # (`super().__init__(name, upstream, value, block_input=False)` after the caller's own new parameter was specialised)
+    kw_defaults = {}
+    for t in trees:
+        for b in [x for x in ast.walk(t) if isinstance(x, ast.FunctionDef)]:
+            ps_ = b.args.args
+            for a_, d_ in zip(ps_[len(ps_) - len(b.args.defaults):], b.args.defaults):
+                kw_defaults.setdefault((b.name, a_.arg), []).append(d_)
+            for a_, d_ in zip(b.args.kwonlyargs, b.args.kw_defaults):
+                kw_defaults.setdefault((b.name, a_.arg), []).append(d_)
+
+    def passes_default(call, k):
+        nm_ = call.func.attr if isinstance(call.func, ast.Attribute) else call.func.id if isinstance(call.func, ast.Name) else None
+        if nm_ is None or not isinstance(k.value, ast.Constant):
+            return False
+        cands = kw_defaults.get((nm_, k.arg), []) + (kw_defaults.get(('__init__', k.arg), []) if nm_[:1].isupper() else [])
+        return bool(cands) and all(isinstance(d_, ast.Constant) and d_.value == k.value.value and type(d_.value) is type(k.value.value) for d_ in cands)
+    # who is called: `super().__init__(...)` inside class C and `Base.__init__(self, ...)` / `Base(...)` name a class, so a keyword passed there
+    # concerns the constructor of that class (the nearest one up its first-base chain that defines one) and no other `__init__`
+    class_defs = {c.name: c for t in trees for c in ast.walk(t) if isinstance(c, ast.ClassDef)}
+
+    def ctor_owner(cn, skip_self=False):
+        seen_ = set()
+        while cn in class_defs and cn not in seen_:
+            seen_.add(cn)
+            c = class_defs[cn]
+            if not skip_self and any(isinstance(b, ast.FunctionDef) and b.name == '__init__' for b in c.body):
+                return cn
+            skip_self = False
+            if not c.bases:
+                return None
+            b0 = c.bases[0]
+            cn = b0.id if isinstance(b0, ast.Name) else b0.attr if isinstance(b0, ast.Attribute) else None
+        return None
+    enclosing_class = {}
+    for c in class_defs.values():
+        for x in ast.walk(c):
+            if isinstance(x, ast.Call):
+                enclosing_class.setdefault(id(x), c.name)
+
+    def callee_owner(call):
+        f = call.func
+        if isinstance(f, ast.Attribute) and f.attr == '__init__':
+            v = f.value
+            if isinstance(v, ast.Call) and isinstance(v.func, ast.Name) and v.func.id == 'super' and not v.args and id(call) in enclosing_class:
+                return ctor_owner(enclosing_class[id(call)], skip_self=True)
+            if isinstance(v, ast.Name) and v.id in class_defs:
+                return ctor_owner(v.id)
+        if isinstance(f, ast.Name) and f.id in class_defs:
+            return ctor_owner(f.id)
+        return None
     for t in trees:
         for x in ast.walk(t):
             if isinstance(x, ast.Call):
+                own_ = callee_owner(x)
                 for k in x.keywords:
                     if k.arg:
-                        passed_kw.add(k.arg)
+                        if not passes_default(x, k):
+                            passed_kw.add((own_, k.arg) if own_ else k.arg)
                     else:
                         passed_kw.add('**')
                 nm = x.func.attr if isinstance(x.func, ast.Attribute) else x.func.id if isinstance(x.func, ast.Name) else None
@@ -1057,7 +1110,7 @@ def _specialise_round(trees):
                 (isinstance(d_, ast.Attribute) and isinstance(d_.value, ast.Name) and d_.value.id[:1].isupper() and d_.attr.isupper())     # EventType.FAIL
             if a.arg in known[qual] or a.arg not in defaults or not literal:
                 continue
-            if a.arg in passed_kw:
+            if a.arg in passed_kw or (ctor_name and fn.name == '__init__' and (ctor_name, a.arg) in passed_kw):
                 continue
             if a in fn.args.args:
                 pos = idx - (1 if is_method else 0)
@@ -1110,17 +1163,23 @@ def _specialise_round(trees):
         # ... unless the paths that only a caller of the new parameter reaches act on the model (they call into the package or store a field): what such
         # a caller gets is then part of what the library does -- `simulate(d, progress_updates=10)` running ten stages of d / 10 -- and is analysed
         def effects(f_):
+            """what the function does to the model, as texts: calls into the package (a trailing argument that is the callee's own default is not
+            written) and field stores"""
             from collections import Counter
             out = Counter()
             for x in ast.walk(f_):
                 if isinstance(x, ast.Call):
                     nm_ = x.func.attr if isinstance(x.func, ast.Attribute) else x.func.id if isinstance(x.func, ast.Name) else None
                     if nm_ in defs_by_name and not (isinstance(x.func, ast.Name) and x.func.id in bind_all):
-                        out[('call', nm_)] += 1
-                elif isinstance(x, ast.Attribute) and isinstance(x.ctx, (ast.Store, ast.Del)):
-                    out[('store', x.attr)] += 1
+                        c2 = copy.deepcopy(x)
+                        c2.args = effective_args(c2, nm_)
+                        c2.keywords = [k for k in c2.keywords if not (k.arg and passes_default(x, k))]
+                        out[('call', ast.unparse(c2))] += 1
+                elif isinstance(x, (ast.Assign, ast.AugAssign, ast.AnnAssign, ast.Delete)):
+                    tg = x.targets if isinstance(x, (ast.Assign, ast.Delete)) else [x.target]
+                    if any(isinstance(y, ast.Attribute) and isinstance(y.ctx, (ast.Store, ast.Del)) for t_ in tg for y in ast.walk(t_)):
+                        out[('store', ast.unparse(x))] += 1
             return out
-        trial = copy.deepcopy(fn)
 
         class PutT(ast.NodeTransformer):
             def visit_Name(self_, x):
@@ -1129,13 +1188,20 @@ def _specialise_round(trees):
                 return x
 
             def visit_FunctionDef(self_, x):
-                return x if x is not trial else self_.generic_visit(x)
+                return x if x is not self_.root else self_.generic_visit(x)
 
             def visit_Lambda(self_, x):
                 return x
-        PutT().generic_visit(trial)
+        substituted = copy.deepcopy(fn)
+        pt = PutT()
+        pt.root = substituted
+        pt.generic_visit(substituted)
+        trial = copy.deepcopy(substituted)
         _fold_constants(trial)
-        if effects(fn) - effects(trial):
+        before, after = effects(substituted), effects(trial)
+        # an effect that disappears is a loss unless the very same effect is still there (`self._initialize_assets(progress)` in the branch for a
+        # given callback is, with the default put in, the `self._initialize_assets()` of the other branch)
+        if any(k not in after for k in (before - after)):
             return
         Put().generic_visit(fn)
         _fold_constants(fn)
@@ -1178,14 +1244,23 @@ def _specialise_round(trees):
                 if len(body) == 1 and isinstance(body[0], ast.Try) and len(body[0].body) == 1 and isinstance(body[0].body[0], ast.Return) and not body[0].orelse \
                         and not body[0].finalbody and body[0].handlers and all(len(h.body) == 1 and isinstance(h.body[0], ast.Raise) for h in body[0].handlers):
                     body = [body[0].body[0]]
+                # `if c1: return E1` ... `return En` (guards without else, each returning a value): the conditional expression E1 if c1 else ... En
+                if len(body) > 1 and isinstance(body[-1], ast.Return) and body[-1].value is not None and all(
+                        isinstance(x, ast.If) and not x.orelse and len(x.body) == 1 and isinstance(x.body[0], ast.Return) and x.body[0].value is not None
+                        and not any(isinstance(y, ast.Call) for y in ast.walk(x.test)) for x in body[:-1]):
+                    e_ = body[-1].value
+                    for x in reversed(body[:-1]):
+                        e_ = ast.IfExp(test=x.test, body=x.body[0].value, orelse=e_)
+                    body = [ast.copy_location(ast.Return(value=ast.copy_location(e_, body[-1])), body[-1])]
+                    ast.fix_missing_locations(body[0])
                 if len(body) == 1 and isinstance(body[0], ast.Return) and body[0].value is not None and deco in ([], ['staticmethod']) \
-                        and not (b.args.vararg or b.args.kwarg or b.args.kwonlyargs or b.args.defaults) \
+                        and not (b.args.vararg or b.args.kwarg or b.args.kwonlyargs) and all(isinstance(d_, ast.Constant) for d_ in b.args.defaults) \
                         and not any(isinstance(x, (ast.Lambda, ast.Yield, ast.Await, ast.NamedExpr)) for x in ast.walk(body[0].value)):
                     ps = [a.arg for a in b.args.args]
                     if cn and deco == []:
                         if not ps or ps[0] != 'self':
                             continue
-                    helpers[b.name] = (cn, deco == ['staticmethod'] or cn is None, ps, body[0].value)
+                    helpers[b.name] = (cn, deco == ['staticmethod'] or cn is None, ps, body[0].value, list(b.args.defaults))
     helpers = {k: v for k, v in helpers.items() if names_count.get(k) == 1}
     if helpers:
         def simple(e):
@@ -1197,15 +1272,21 @@ def _specialise_round(trees):
                 nm = n.func.attr if isinstance(n.func, ast.Attribute) else n.func.id if isinstance(n.func, ast.Name) else None
                 if nm not in helpers or n.keywords or not all(simple(a) for a in n.args):
                     return n
-                cn, static, ps, expr = helpers[nm]
+                cn, static, ps, expr, dflts = helpers[nm]
+                own = ps if static else ps[1:]
+                args_ = list(n.args)
+                if len(args_) < len(own) and len(own) - len(args_) <= len(dflts):
+                    args_ += [copy.deepcopy(d_) for d_ in dflts[len(dflts) - (len(own) - len(args_)):]]      # omitted trailing arguments take their constant defaults
+                if not static and isinstance(n.func, ast.Attribute) and isinstance(n.func.value, ast.Name) and n.func.value.id == cn and len(n.args) == len(ps):
+                    static, own, args_ = True, ps, list(n.args)          # `Part.snapshot(obj)`: the method called through its class, receiver given explicitly
+                if len(own) != len(args_):
+                    return n
                 if static:
-                    if len(ps) != len(n.args):
-                        return n
-                    bind = dict(zip(ps, n.args))
+                    bind = dict(zip(ps, args_))
                 else:
-                    if not isinstance(n.func, ast.Attribute) or len(ps) - 1 != len(n.args) or not simple(n.func.value):
+                    if not isinstance(n.func, ast.Attribute) or not simple(n.func.value):
                         return n
-                    bind = dict(zip(ps[1:], n.args))
+                    bind = dict(zip(ps[1:], args_))
                     bind[ps[0]] = n.func.value
 
                 class Put(ast.NodeTransformer):
@@ -1219,9 +1300,66 @@ def _specialise_round(trees):
                 holder = ast.Expr(value=e)
                 _fold_constants(holder)
                 return holder.value
+        def propagate_constant_locals(t):
+            """a local bound exactly once, to a constant (what is left of `type_filter = Environment._as_type_filter(None)`), is that constant"""
+            changed = False
+            for fn in [x for x in ast.walk(t) if isinstance(x, ast.FunctionDef)]:
+                params = {a.arg for a in fn.args.args + fn.args.kwonlyargs} | ({fn.args.vararg.arg} if fn.args.vararg else set()) | ({fn.args.kwarg.arg} if fn.args.kwarg else set())
+                stores = {}
+                for x in ast.walk(fn):
+                    if isinstance(x, ast.Name) and isinstance(x.ctx, (ast.Store, ast.Del)):
+                        stores[x.id] = stores.get(x.id, 0) + 1
+                consts = {}
+                for st in fn.body:
+                    if isinstance(st, ast.Assign) and len(st.targets) == 1 and isinstance(st.targets[0], ast.Name) and isinstance(st.value, ast.Constant) \
+                            and stores.get(st.targets[0].id) == 1 and st.targets[0].id not in params:
+                        consts[st.targets[0].id] = st.value
+                if not consts:
+                    continue
+
+                class PutC(ast.NodeTransformer):
+                    def visit_Name(s_, x):
+                        if x.id in consts and isinstance(x.ctx, ast.Load):
+                            return ast.copy_location(copy.deepcopy(consts[x.id]), x)
+                        return x
+
+                    def visit_FunctionDef(s_, x):
+                        return x if x is not fn else s_.generic_visit(x)
+
+                    def visit_Lambda(s_, x):
+                        return x
+                PutC().generic_visit(fn)
+                changed = True
+            return changed
+        class Unstar(ast.NodeTransformer):
+            """`(a, *(b, c))` is `(a, b, c)`"""
+            def _flat(s_, elts):
+                out = []
+                for e in elts:
+                    if isinstance(e, ast.Starred) and isinstance(e.value, (ast.Tuple, ast.List)) and not any(isinstance(y, ast.Starred) for y in e.value.elts):
+                        out.extend(e.value.elts)
+                    else:
+                        out.append(e)
+                return out
+
+            def visit_Tuple(s_, n):
+                s_.generic_visit(n)
+                if isinstance(n.ctx, ast.Load):
+                    n.elts = s_._flat(n.elts)
+                return n
+
+            def visit_List(s_, n):
+                s_.generic_visit(n)
+                if isinstance(n.ctx, ast.Load):
+                    n.elts = s_._flat(n.elts)
+                return n
         for t in trees:
             Inl().visit(t)
+            Unstar().visit(t)
             _fold_constants(t)
+            if propagate_constant_locals(t):
+                Inl().visit(t)
+                _fold_constants(t)
             ast.fix_missing_locations(t)
 
 
@@ -1242,16 +1380,44 @@ def _strip_diagnostics(trees):
             continue
         one_liners = {b.name for b in ast.walk(t) if isinstance(b, ast.FunctionDef) and b.name.startswith('_') and
                       len([x for x in b.body if not (isinstance(x, ast.Expr) and isinstance(x.value, ast.Constant))]) == 1}
+        # private label helpers of any length that only compute a value: `if`/`return`/local assignments, no store into an object, no call except
+        # pure builtins, string methods and each other (`_describe(item)` returning a name with a length)
+        def _is_value_helper(b, pure_names):
+            if not b.name.startswith('_') or b.name.startswith('__'):
+                return False
+            for x in ast.walk(b):
+                if isinstance(x, (ast.Attribute, ast.Subscript)) and isinstance(x.ctx, (ast.Store, ast.Del)):
+                    return False
+                if isinstance(x, (ast.For, ast.While, ast.With, ast.Try, ast.Raise, ast.Global, ast.Nonlocal, ast.Yield, ast.YieldFrom, ast.Await, ast.AugAssign, ast.Delete)):
+                    return False
+                if isinstance(x, ast.Call):
+                    f = x.func
+                    ok = (isinstance(f, ast.Name) and (f.id in PURE or f.id in pure_names)) or \
+                         (isinstance(f, ast.Attribute) and (f.attr in ('format', 'join', 'get', 'keys', 'values', 'items', 'copy') or f.attr in pure_names))
+                    if not ok:
+                        return False
+            return any(isinstance(x, ast.Return) and x.value is not None for x in ast.walk(b))
+        value_helpers = set(one_liners)
+        for _k in range(3):
+            more = {b.name for b in ast.walk(t) if isinstance(b, ast.FunctionDef) and _is_value_helper(b, value_helpers)}
+            if more <= value_helpers:
+                break
+            value_helpers |= more
+        PROCESS_READS = {'os.getpid', 'time.time', 'time.perf_counter', 'time.monotonic', 'threading.get_ident', 'multiprocessing.current_process'}
 
         def is_log_recv(e):
             return isinstance(e, ast.Name) and (e.id in loggers or (has_logging and e.id == 'logging'))
+        import copy as _copy_
+        b_orig = {b.name: _copy_.deepcopy(b) for b in ast.walk(t) if isinstance(b, ast.FunctionDef) and b.name.startswith('_') and
+                  any(isinstance(x, ast.Call) and isinstance(x.func, ast.Attribute) and is_log_recv(x.func.value) for x in ast.walk(b))}
 
         def harmless(e):
             for x in ast.walk(e):
                 if isinstance(x, ast.Call):
                     f = x.func
-                    ok = (isinstance(f, ast.Name) and (f.id in PURE or f.id in one_liners)) or \
-                         (isinstance(f, ast.Attribute) and (f.attr in ('format', 'join', 'get', 'keys', 'values', 'items', 'copy') or is_log_recv(f.value)))
+                    ok = (isinstance(f, ast.Name) and (f.id in PURE or f.id in value_helpers)) or \
+                         (isinstance(f, ast.Attribute) and (f.attr in ('format', 'join', 'get', 'keys', 'values', 'items', 'copy') or is_log_recv(f.value)
+                                                            or f.attr in value_helpers or ast.unparse(f) in PROCESS_READS))
                     if not ok:
                         return False
                 if isinstance(x, (ast.NamedExpr, ast.Await, ast.Yield, ast.Lambda)):
@@ -1293,8 +1459,43 @@ def _strip_diagnostics(trees):
                 out.append(st)
             return out
         t.body = clean(t.body)
-        for fn in [x for x in t.body if isinstance(x, ast.FunctionDef)]:
-            pass
+        # a private helper that did nothing but log (`def _log_debug(self, what, subject): if not logger.isEnabledFor(DEBUG): return; logger.debug(...)`)
+        # is now empty: the statements that call it are diagnostics too
+        def _is_empty(b):
+            body = [x for x in b.body if not (isinstance(x, ast.Expr) and isinstance(x.value, ast.Constant))]
+            for x in body:
+                if isinstance(x, ast.Pass) or (isinstance(x, ast.Return) and x.value is None):
+                    continue
+                if isinstance(x, ast.If) and not x.orelse and is_log_guard(x.test) and all(isinstance(y, ast.Pass) or (isinstance(y, ast.Return) and y.value is None) for y in x.body):
+                    continue
+                return False
+            return True
+        log_only = {b.name for b in ast.walk(t) if isinstance(b, ast.FunctionDef) and b.name.startswith('_') and not b.name.startswith('__') and not b.decorator_list
+                    and _is_empty(b) and any(isinstance(x, ast.Call) and isinstance(x.func, ast.Attribute) and is_log_recv(x.func.value) for x in ast.walk(b_orig.get(b.name, b)))}
+        if log_only:
+            def is_log_call_stmt(st):
+                return isinstance(st, ast.Expr) and isinstance(st.value, ast.Call) and isinstance(st.value.func, ast.Attribute) and st.value.func.attr in log_only \
+                    and isinstance(st.value.func.value, ast.Name) and st.value.func.value.id in ('self', 'cls') \
+                    and all(harmless(a) for a in st.value.args) and all(harmless(k.value) for k in st.value.keywords)
+
+            def clean2(block):
+                out = []
+                for st in block:
+                    if is_log_call_stmt(st):
+                        continue
+                    for f in ('body', 'orelse', 'finalbody'):
+                        b = getattr(st, f, None)
+                        if isinstance(b, list) and b and isinstance(b[0], ast.stmt):
+                            nb = clean2(b)
+                            if not nb and f == 'body':
+                                nb = [ast.copy_location(ast.Pass(), st)]
+                            setattr(st, f, nb)
+                    if isinstance(st, ast.Try):
+                        for h in st.handlers:
+                            h.body = clean2(h.body) or [ast.copy_location(ast.Pass(), h)]
+                    out.append(st)
+                return out
+            t.body = clean2(t.body)
         # an `else:` branch that only logged is now `else: pass`; `if c: pass` with nothing else is left as it is (the test may matter to a rule)
         ast.fix_missing_locations(t)
 
